@@ -8,6 +8,8 @@ the property through a nested call (or an induction hypothesis that is instantia
 
   shape.evaluate      (C03) total in-bounds interpretation e:  evaluate(e) is the constant truth(model, e); the entry of the
                       top id in evaluate_propositions(e) is the same
+  shape.fixed-node    (C03) total interpretation that also fixes one compound node (own id or inner) to a constant, in every
+                      value form: evaluate / the top entry / the node's own entry follow the override clause
   shape.partial       (C06) leaves optionally given: evaluate(partial) contains truth(model, completion) for every in-bounds
                       completion of the leaves not given
   shape.assume        (C07) assume(a).evaluate(r) == evaluate(a | r) for a split of the leaves into a (given first) and r
@@ -20,7 +22,7 @@ import z3
 from pyvc.sym import SInt, ctx, Unsupported
 from pyvc.nodes import band, bor, bnot, implies, ite
 from pyvc.engine import Harness
-from .common import _mv
+from .common import _mv, ints
 from .specs import truth
 from .c01glue import SHAPES, build
 
@@ -135,7 +137,7 @@ class ShapeEvaluateH(_Shape):
             m2, _ = self.native(w)
             evp = m2.evaluate_propositions(dict(env))["T"]
             if tuple(ev.as_tuple()) != (t, t) and "shape.evaluate" not in violated:
-                violated.append("shape.evaluate"); detail["interpretation"] = env; detail["evaluate"] = [int(x) for x in ev.as_tuple()]
+                violated.append("shape.evaluate"); detail["interpretation"] = env; detail["evaluate"] = ints(ev)
             if tuple(evp.as_tuple()) != (t, t) and "shape.evaluate_propositions.top" not in violated:
                 violated.append("shape.evaluate_propositions.top"); detail["interpretation"] = env
             m3, _ = self.native(w)
@@ -144,6 +146,90 @@ class ShapeEvaluateH(_Shape):
                 tk = self.tv(w, tree, k, env)
                 if (k not in allp or tuple(allp[k].as_tuple()) != (tk, tk)) and "shape.evaluate_propositions.every-node" not in violated:
                     violated.append("shape.evaluate_propositions.every-node"); detail["interpretation"] = env; detail["node"] = k
+        return {"violated": violated, "detail": detail}
+
+
+class ShapeFixedNodeH(_Shape):
+    """C03's override clause end to end: the interpretation fixes every leaf AND gives one compound node -- the model's own
+    id or an inner sub-proposition -- the constant k (symbolic, 0 or 1) as an int, as the tuple (k,k) or as puan.Bounds(k,k):
+    that node takes k, its parents see k, evaluate() is the top entry of evaluate_propositions()."""
+    name = "shape.fixed-node"
+    function = "AtLeast.evaluate"
+    functions = ["AtLeast.evaluate", "AtLeast.evaluate_propositions", "AtLeast.assume", "AtLeast.flatten", ("puan", "variable.assume")]
+
+    def cases(self):
+        out = []
+        for base in sign_cases(["flat", "nested"] if _tier() == "quick" else ["flat", "nested", "shared-leaf"]):
+            for node in sorted(SHAPES[base["shape"]]):
+                for form in ("int", "tuple", "bounds"):
+                    out.append({**base, "node": node, "form": form})
+        return out
+
+    @staticmethod
+    def _ov(case, st, n, k):
+        tree = SHAPES[case["shape"]]
+        if n not in tree:
+            return st["env"][n]
+        if n == case["node"]:
+            return k
+        s = 0
+        for ch in tree[n]:
+            s = s + ShapeFixedNodeH._ov(case, st, ch, k)
+        return ite(case["signs"][n] * s >= st["vals"][n], 1, 0)
+
+    def run(self, c, st):
+        case = c.state_case
+        k = SInt(z3.Int("k.fixed"))
+        c.assume_global(z3.And(k.t >= 0, k.t <= 1))
+        v = k if case["form"] == "int" else (k, k) if case["form"] == "tuple" else c.repo.puan.Bounds(k, k)
+        e = {**st["env"], case["node"]: v}
+        return {"k": k, "ev": st["top"].evaluate(dict(e)), "evp": st["top"].evaluate_propositions(dict(e))}
+
+    def ensures(self, c, st, res):
+        case = c.state_case
+        t = self._ov(case, st, "T", res["k"])
+        ev, evp = res["ev"], res["evp"]
+        out = [("shape.fixed-node.evaluate", band(ev.lower == t, ev.upper == t))]
+        if "T" in evp and case["node"] in evp:
+            top, own = evp["T"], evp[case["node"]]
+            out.append(("shape.fixed-node.top-entry", band(top.lower == t, top.upper == t)))
+            out.append(("shape.fixed-node.own-entry", band(own.lower == res["k"], own.upper == res["k"])))
+        else:
+            out.append(("shape.fixed-node.top-entry", False))
+        return out
+
+    def concretise(self, case, k, model, c, st):
+        w = super().concretise(case, k, model, c, st)
+        w["k"] = _mv(model, z3.Int("k.fixed"))
+        return w
+
+    def replay(self, w):
+        import puan
+        top, tree = self.native(w)
+        case = w["case"]
+        violated, detail = [], {"model": top.to_text()}
+
+        def ov(n, env, k):
+            if n not in tree:
+                return env[n]
+            if n == case["node"]:
+                return k
+            return int(case["signs"][n] * sum(ov(x, env, k) for x in tree[n]) >= w["values"][n])
+        for k in sorted({min(max(int(w.get("k", 0)), 0), 1), 0, 1}):
+            v = k if case["form"] == "int" else (k, k) if case["form"] == "tuple" else puan.Bounds(k, k)
+            for env in self.points(w, tree, limit=120):
+                t = ov("T", env, k)
+                m, _ = self.native(w)
+                ev = m.evaluate({**env, case["node"]: v})
+                m2, _ = self.native(w)
+                evp = m2.evaluate_propositions({**env, case["node"]: v})
+                as_t = lambda b: tuple(b.as_tuple()) if hasattr(b, "as_tuple") else b
+                if as_t(ev) != (t, t) and "shape.fixed-node.evaluate" not in violated:
+                    violated.append("shape.fixed-node.evaluate"); detail.update(interpretation=env, fixed={case["node"]: repr(v)}, got=ints(ev), want=t)
+                if as_t(evp.get("T")) != (t, t) and "shape.fixed-node.top-entry" not in violated:
+                    violated.append("shape.fixed-node.top-entry"); detail.update(interpretation=env, fixed={case["node"]: repr(v)}, top=repr(evp.get("T")), want=t)
+                if as_t(evp.get(case["node"])) != (k, k) and "shape.fixed-node.own-entry" not in violated:
+                    violated.append("shape.fixed-node.own-entry"); detail.update(interpretation=env, fixed={case["node"]: repr(v)}, own=repr(evp.get(case["node"])))
         return {"violated": violated, "detail": detail}
 
 
@@ -187,9 +273,9 @@ class ShapeOwnRangeH(_Shape):
             m2, _ = self.native(w)
             two = m2.assume({"T": rng}).evaluate(dict(env))
             if tuple(one.as_tuple()) != (t, t) and "shape.own-range.evaluate" not in violated:
-                violated.append("shape.own-range.evaluate"); detail.update(interpretation=env, got=[int(x) for x in one.as_tuple()], want=t)
+                violated.append("shape.own-range.evaluate"); detail.update(interpretation=env, got=ints(one), want=t)
             if tuple(two.as_tuple()) != (t, t) and "shape.own-range.assume-then-evaluate" not in violated:
-                violated.append("shape.own-range.assume-then-evaluate"); detail.update(interpretation=env, got2=[int(x) for x in two.as_tuple()], want=t)
+                violated.append("shape.own-range.assume-then-evaluate"); detail.update(interpretation=env, got2=ints(two), want=t)
         return {"violated": violated, "detail": detail}
 
 
@@ -221,7 +307,7 @@ class ShapePartialH(_Shape):
             got = m.evaluate({l: env[l] for l in w["case"]["given"]})
             t = self.tv(w, tree, "T", env)
             if not (got.lower <= t <= got.upper):
-                violated.append("shape.partial.contains"); detail["interpretation"] = env; detail["evaluate(partial)"] = [int(x) for x in got.as_tuple()]
+                violated.append("shape.partial.contains"); detail["interpretation"] = env; detail["evaluate(partial)"] = ints(got)
                 break
         return {"violated": violated, "detail": detail}
 
@@ -258,7 +344,7 @@ class ShapeAssumeH(_Shape):
             got = m.assume(dict(a)).evaluate(dict(r))
             t = self.tv(w, tree, "T", env)
             if tuple(got.as_tuple()) != (t, t):
-                violated.append("shape.assume.compose"); detail.update(assumption=a, rest=r, got=[int(x) for x in got.as_tuple()], want=t)
+                violated.append("shape.assume.compose"); detail.update(assumption=a, rest=r, got=ints(got), want=t)
                 break
         return {"violated": violated, "detail": detail}
 
@@ -304,12 +390,12 @@ class ShapeNegateH(_Shape):
             got = m.negate().evaluate(dict(env))
             t = self.tv(w, tree, "T", env)
             if tuple(got.as_tuple()) != (1 - t, 1 - t):
-                violated.append("shape.negate.complement"); detail.update(interpretation=env, got=[int(x) for x in got.as_tuple()], original=t)
+                violated.append("shape.negate.complement"); detail.update(interpretation=env, got=ints(got), original=t)
                 break
             m2, _ = self.native(w)
             got2 = m2.negate().negate().evaluate(dict(env))
             if tuple(got2.as_tuple()) != (t, t):
-                violated.append("shape.negate.twice"); detail.update(interpretation=env, twice=[int(x) for x in got2.as_tuple()], original=t)
+                violated.append("shape.negate.twice"); detail.update(interpretation=env, twice=ints(got2), original=t)
                 break
         return {"violated": violated, "detail": detail}
 
@@ -338,7 +424,7 @@ class ShapeReduceH(_Shape):
             t = self.tv(w, tree, "T", env)
             if tuple(got.as_tuple()) != (t, t):
                 violated.append("shape.reduce.meaning"); detail.update(interpretation=env, reduced=red.to_text() if hasattr(red, "to_text") else repr(red),
-                                                                    got=[int(x) for x in got.as_tuple()], want=t)
+                                                                    got=ints(got), want=t)
                 break
         return {"violated": violated, "detail": detail}
 
@@ -374,7 +460,7 @@ class ShapeJsonH(_Shape):
             got = pg.from_json(json.loads(json.dumps(js))).evaluate(dict(env))
             t = self.tv(w, tree, "T", env)
             if tuple(got.as_tuple()) != (t, t):
-                violated.append("shape.json.meaning"); detail.update(interpretation=env, got=[int(x) for x in got.as_tuple()], want=t)
+                violated.append("shape.json.meaning"); detail.update(interpretation=env, got=ints(got), want=t)
                 break
         return {"violated": violated, "detail": detail}
 
@@ -495,4 +581,4 @@ class ShapeJsonImplyH(_Shape):
         return {"violated": violated, "detail": detail}
 
 
-HARNESSES = [ShapeJsonImplyH(), ShapeOwnRangeH(), ShapeEvaluateH(), ShapePartialH(), ShapeAssumeH(), ShapeNegateH(), ShapeReduceH(), ShapeJsonH()]
+HARNESSES = [ShapeJsonImplyH(), ShapeOwnRangeH(), ShapeEvaluateH(), ShapeFixedNodeH(), ShapePartialH(), ShapeAssumeH(), ShapeNegateH(), ShapeReduceH(), ShapeJsonH()]
